@@ -1375,6 +1375,7 @@ def c16(p, tier, replay):
         vlib.printed_json(sr["out"], dest)
         sched_recs += [json.loads(l) for l in open(dest)]
     seen = set()
+    nbad_sched = 0
     sfile = os.path.join(WORK, "c16_schedule.json")
     for rec in sched_recs:
         key = json.dumps(rec, sort_keys=True)
@@ -1395,6 +1396,9 @@ def c16(p, tier, replay):
             (None if o["results_ok"] else "results differ from the sequential results")
         if why:
             v.report("c16.schedule", {"t": None}, "programs %s :: %s" % (json.dumps(rec["progs"]), why), rec)
+            nbad_sched += 1
+            if nbad_sched >= 10:
+                break       # (every unfollowable schedule costs its waiting budget: ten of them are evidence enough)
     ndistinct = len(seen)
     races = sum(1 for o in observations if sum(1 for e in o["events"] if e["l"] == "Miss") >= 2)
     nev = sum(len(o["events"]) for o in observations)
